@@ -315,8 +315,8 @@ def collapse_cost(stepmon, clip=False, limit=1.0, samples=50, mask=None):
         if not hi:
             bounds_ = []
         else:
-            bounds_ = par[w[x[-1],p]] + d[x[-1],p]
-            bounds_ = [(bounds_, bound_[p])]
+            bounds_ = min(w[x[-1],p] + d[x[-1],p], npts-1)
+            bounds_ = [(par[bounds_], bound_[p])]
         # get the indices of the "good" bounds
         bounds = list(zip(*(par[w[x[:-1],p]+d[x[:-1],p]],par[w[x[1:],p]])))
         bounds = _bounds + bounds + bounds_
